@@ -27,6 +27,8 @@ pub struct Norm<'a> {
     pub return_no: usize,
     pub forpat_no: usize,
     pub tmp_no: usize,
+    pub split_no: usize,
+    pub spine_no: usize,
     pub call_no: BTreeMap<String, usize>,
     pub let_no: BTreeMap<String, usize>,
     pub hoisted: Vec<Stmt>,
@@ -37,9 +39,16 @@ pub struct Norm<'a> {
     pub errors: Vec<String>,
     pub closure_depth: usize,
     pub canaries: Vec<String>,
-    pub foridx_inner: Option<usize>, // loop ordinal whose statement-level anchors were already placed around the R-FORIDX block
-    pub ret_ty: Option<Type>, // declared return type: R-RETBIND annotates `let r: T = tail;` so coercions at the return site still apply
-    pub mut_slices: Vec<String>, // parameters of type `&mut [T]` (R-SLICEPAT binds `&mut s[k]` for them)
+    /// R-STRSLICE: parameters whose declared type is `&str`
+    pub str_idents: BTreeSet<String>,
+    /// R-ITER(for): parameters whose (overridden) type is the `VxIter` model type
+    pub iter_idents: BTreeSet<String>,
+    pub bind_no: BTreeMap<String, usize>,
+    pub bind_done: BTreeSet<usize>,
+    /// parameters of type `&mut [T]` (R-SLICEPAT binds `&mut s[k]` for them)
+    pub mut_slices: Vec<String>,
+    /// `@opt retbind-typed`: R-RETBIND annotates `let r: T = tail;` with the declared return type (coercions at the return site still apply)
+    pub ret_ty: Option<Type>,
 }
 
 const ITER_HEADS_M: &[&str] = &["vx_iter", "vx_into_iter", "vx_iter_mut", "vx_chars", "vx_char_indices", "vx_bytes", "vx_keys", "vx_values"];
@@ -49,10 +58,10 @@ impl<'a> Norm<'a> {
     pub fn new(spec: &'a FnSpec, unit: &'a Unit, canary: bool, fname: &str) -> Self {
         Norm {
             spec, unit, canary, fname: fname.to_string(),
-            loop_no: 0, closure_no: 0, if_no: 0, match_no: 0, assert_no: 0, return_no: 0, forpat_no: 0, tmp_no: 0,
+            loop_no: 0, closure_no: 0, if_no: 0, match_no: 0, assert_no: 0, return_no: 0, forpat_no: 0, tmp_no: 0, split_no: 0, spine_no: 0,
             call_no: Default::default(), let_no: Default::default(), hoisted: vec![], log: Default::default(),
             raws: vec![], used_anchors: Default::default(), avail_anchors: Default::default(), errors: vec![],
-            closure_depth: 0, canaries: vec![], mut_slices: vec![], ret_ty: None, foridx_inner: None,
+            closure_depth: 0, canaries: vec![], str_idents: Default::default(), iter_idents: Default::default(), bind_no: Default::default(), bind_done: Default::default(), mut_slices: vec![], ret_ty: None,
         }
     }
     pub fn bump(&mut self, r: &str) {
@@ -81,14 +90,15 @@ impl<'a> Norm<'a> {
         Some(self.raw_stmt(&format!("assert(false); /*VX-CANARY {}*/", tag)))
     }
 
-    fn is_iter_chain(&self, e: &Expr) -> bool {
+    fn is_iter_chain(e: &Expr, iter_fns: &[String]) -> bool {
         match e {
             Expr::MethodCall(mc) => {
                 let m = mc.method.to_string();
-                if ITER_HEADS_M.contains(&m.as_str()) || self.unit.iter_sources.iter().any(|x| x == &m) {
+                // @iter-fn: methods of extracted types whose return type was mapped onto VxIter
+                if ITER_HEADS_M.contains(&m.as_str()) || iter_fns.iter().any(|f| f == &m) {
                     return true;
                 }
-                self.is_iter_chain(&mc.receiver)
+                Self::is_iter_chain(&mc.receiver, iter_fns)
             }
             Expr::Call(c) => {
                 if let Expr::Path(p) = &*c.func {
@@ -98,7 +108,7 @@ impl<'a> Norm<'a> {
                 }
                 false
             }
-            Expr::Paren(p) => self.is_iter_chain(&p.expr),
+            Expr::Paren(p) => Self::is_iter_chain(&p.expr, iter_fns),
             _ => false,
         }
     }
@@ -143,7 +153,9 @@ impl<'a> Norm<'a> {
                 self.bump("R-ASSERT");
                 Some(parse_quote!(vx_unreachable()))
             }
-            "vec" => {
+            "vec" | "smallvec" | "smallvec_inline" => {
+                // smallvec![..] / smallvec_inline![..] follow R-TYPE (SmallVec -> Vec): same element list as vec![..]
+                if name != "vec" { self.bump("R-TYPE"); }
                 // vec![e; n] -> vx_vec_repeat(e, n); other forms stay
                 let toks = mac.tokens.to_string();
                 if toks.contains(';') {
@@ -244,6 +256,12 @@ impl<'a> Norm<'a> {
 
     /// R-SLICEPAT and R-LETCHAIN on an `if`.
     fn rewrite_if(&mut self, i: &mut ExprIf) {
+        // R-REFPAT on `if let`: derefs go to the start of the then-branch
+        if let Expr::Let(l) = &mut *i.cond {
+            let mut derefs: Vec<Stmt> = vec![];
+            self.strip_ref_pats(&mut l.pat, &mut derefs);
+            for (k, d) in derefs.into_iter().enumerate() { i.then_branch.stmts.insert(k, d); }
+        }
         // slice pattern: if let [a, ..] = E
         if let Expr::Let(l) = &*i.cond {
             if let Some((n, binds)) = Self::slice_pat_bindings(&l.pat) {
@@ -303,7 +321,125 @@ impl<'a> Norm<'a> {
     }
 }
 
+impl<'a> Norm<'a> {
+    /// R-REFPAT: replace every reference pattern `&..&x` inside `p` by a fresh binder and emit `let x = *..*fresh;`
+    fn strip_ref_pats(&mut self, p: &mut Pat, out: &mut Vec<Stmt>) {
+        match p {
+            Pat::Reference(_) => {
+                let mut depth = 0usize;
+                let mut cur: Pat = p.clone();
+                while let Pat::Reference(r) = cur { depth += 1; cur = (*r.pat).clone(); }
+                match &cur {
+                    Pat::Ident(pi) if pi.subpat.is_none() && pi.by_ref.is_none() => {
+                        self.tmp_no += 1;
+                        let fresh = Ident::new(&format!("__vx_r{}", self.tmp_no), Span::call_site());
+                        let mut ex: Expr = parse_quote!(#fresh);
+                        for _ in 0..depth { ex = parse_quote!(*#ex); }
+                        out.push(parse_quote!(let #cur = #ex;));
+                        *p = parse_quote!(#fresh);
+                        self.bump("R-REFPAT");
+                    }
+                    _ => self.errors.push(format!("reference pattern over a non-identifier in {}", self.fname)),
+                }
+            }
+            Pat::Tuple(t) => { for e in t.elems.iter_mut() { self.strip_ref_pats(e, out); } }
+            Pat::TupleStruct(t) => { for e in t.elems.iter_mut() { self.strip_ref_pats(e, out); } }
+            Pat::Paren(t) => self.strip_ref_pats(&mut t.pat, out),
+            Pat::Type(t) => self.strip_ref_pats(&mut t.pat, out),
+            Pat::Struct(st) => { for f in st.fields.iter_mut() { self.strip_ref_pats(&mut f.pat, out); } }
+            _ => {}
+        }
+    }
+
+    fn letsplit_expr(&mut self, e: &mut Expr, pre: &mut Vec<Stmt>) {
+        match e {
+            Expr::Try(t) => self.letsplit_expr(&mut t.expr, pre),
+            Expr::Await(t) => self.letsplit_expr(&mut t.base, pre),
+            Expr::Paren(t) => self.letsplit_expr(&mut t.expr, pre),
+            Expr::MethodCall(mc) => {
+                if !self.spec.letsplit.contains(&mc.method.to_string()) { return; }
+                let simple = |x: &Expr| matches!(x, Expr::Path(_) | Expr::Field(_) | Expr::Lit(_));
+                if !simple(&mc.receiver) {
+                    self.letsplit_expr(&mut mc.receiver, pre);
+                    self.split_no += 1;
+                    let t = Ident::new(&format!("__vx_t{}", self.split_no), Span::call_site());
+                    let r = &mc.receiver;
+                    pre.push(parse_quote!(let mut #t = #r;));
+                    mc.receiver = Box::new(parse_quote!(#t));
+                    self.bump("R-LETSPLIT");
+                }
+                // `&mut CALL` arguments (evaluated after the now-simple receiver): bound in order
+                for a in mc.args.iter_mut() {
+                    if let Expr::Reference(rf) = a {
+                        if rf.mutability.is_some() && matches!(&*rf.expr, Expr::MethodCall(_) | Expr::Call(_)) {
+                            self.split_no += 1;
+                            let t = Ident::new(&format!("__vx_t{}", self.split_no), Span::call_site());
+                            let inner = &rf.expr;
+                            pre.push(parse_quote!(let mut #t = #inner;));
+                            rf.expr = Box::new(parse_quote!(#t));
+                            self.bump("R-LETSPLIT");
+                        }
+                    }
+                }
+            }
+            _ => {}
+        }
+    }
+
+    /// root `R.peek_mut()` of a method chain: rename to `peek`, return R
+    fn peek_mut_root(e: &mut Expr) -> Option<Expr> {
+        if let Expr::MethodCall(mc) = e {
+            if mc.method == "peek_mut" && mc.args.is_empty() {
+                mc.method = Ident::new("peek", mc.method.span());
+                return Some((*mc.receiver).clone());
+            }
+            return Self::peek_mut_root(&mut mc.receiver);
+        }
+        None
+    }
+    fn single_binder(p: &Pat) -> Option<Ident> {
+        match p {
+            Pat::Ident(pi) => Some(pi.ident.clone()),
+            Pat::TupleStruct(t) if t.elems.len() == 1 => Self::single_binder(&t.elems[0]),
+            Pat::Paren(t) => Self::single_binder(&t.pat),
+            _ => None,
+        }
+    }
+}
+
+/// R-MAP(peek_mut): `PeekMut::pop(X)` -> `R.vx_peekmut_pop()` for the binder X of the enclosing `while let .. = R.peek_mut()..`
+struct PeekMutPop { binder: Ident, recv: Expr, replaced: usize, other_uses: usize }
+impl VisitMut for PeekMutPop {
+    fn visit_expr_mut(&mut self, e: &mut Expr) {
+        if let Expr::Call(c) = e {
+            if squash(&ts(&c.func)).ends_with("PeekMut::pop") && c.args.len() == 1 {
+                if let Expr::Path(p) = &c.args[0] {
+                    if p.path.is_ident(&self.binder) {
+                        let r = &self.recv;
+                        *e = parse_quote!(#r.vx_peekmut_pop());
+                        self.replaced += 1;
+                        return;
+                    }
+                }
+            }
+        }
+        if let Expr::Path(p) = e { if p.path.is_ident(&self.binder) { self.other_uses += 1; } }
+        visit_mut::visit_expr_mut(self, e);
+    }
+}
+
 use syn::parse::Parser;
+
+pub fn strip_jj_lib_prefix(p: &mut Path, log: &mut BTreeMap<String, usize>) -> bool {
+    if p.leading_colon.is_some() && p.segments.len() > 2 && p.segments[0].ident == "jj_lib" && p.segments[1].ident == "content_hash" {
+        let rest: Punctuated<PathSegment, Token![::]> = p.segments.iter().skip(2).cloned().collect();
+        p.segments = rest;
+        p.leading_colon = None;
+        *log.entry("R-MACRO-EXPAND(path)".to_string()).or_default() += 1;
+        return true;
+    }
+    false
+}
 
 pub struct Rename<'a> {
     pub from: &'a str,
@@ -372,7 +508,19 @@ impl<'a> VisitMut for Norm<'a> {
 
     fn visit_attribute_mut(&mut self, _a: &mut Attribute) {}
 
+    /// R-MACRO-EXPAND (paths): the derive macro names jj_lib items by absolute path `::jj_lib::content_hash::X`; in the
+    /// single-file crate they are just `X`.
+    fn visit_path_mut(&mut self, p: &mut Path) {
+        strip_jj_lib_prefix(p, &mut self.log);
+        visit_mut::visit_path_mut(self, p);
+    }
+
     fn visit_expr_path_mut(&mut self, p: &mut ExprPath) {
+        if let Some(q) = &mut p.qself {
+            // `<T as ::jj_lib::content_hash::Trait>::f`: the trait part shrinks by the stripped segments
+            let before = p.path.segments.len();
+            if strip_jj_lib_prefix(&mut p.path, &mut self.log) { q.position -= before - p.path.segments.len(); }
+        }
         if p.path.segments.len() > 1 {
             if let Some(seg) = p.path.segments.first_mut() {
                 if let Some((_, to)) = self.unit.path_map.iter().find(|(f, _)| seg.ident == f.as_str()) {
@@ -384,24 +532,101 @@ impl<'a> VisitMut for Norm<'a> {
         visit_mut::visit_expr_path_mut(self, p);
     }
 
-    fn visit_block_mut(&mut self, b: &mut Block) {
-        let mut old: std::collections::VecDeque<Stmt> = std::mem::take(&mut b.stmts).into();
-        while let Some(mut s) = old.pop_front() {
-            // R-LETSPLIT: `recv.NAME(..).m(..)` on the statement's own receiver spine -> `let mut __tK = recv.NAME(..); __tK.m(..)`
-            if !self.spec.letsplit.is_empty() {
-                if let Some(first) = self.letsplit_stmt(&mut s) {
-                    old.push_front(s);
-                    old.push_front(first);
-                    continue;
+    fn visit_expr_struct_mut(&mut self, s: &mut ExprStruct) {
+        // R-TYPE on the path of a struct literal: `a::b::T { .. }` with `@type-map a::b::T => T`
+        if s.qself.is_none() {
+            let key = squash(&ts(&s.path));
+            if let Some((_, to)) = self.unit.type_map.iter().find(|(f, _)| f == &key) {
+                if let Ok(np) = parse_str::<Path>(to) {
+                    s.path = np;
+                    self.bump("R-TYPE");
                 }
             }
+        }
+        visit_mut::visit_expr_struct_mut(self, s);
+    }
+
+    fn visit_block_mut(&mut self, b: &mut Block) {
+        let mut old = std::mem::take(&mut b.stmts);
+        // R-BINDSPINE (@bindspine f g []): on the first-evaluated spine of a `let` initialiser / statement-level `if let` scrutinee
+        // (method receiver, first argument of a path call, operand of `?`/`.await`) calls of the named callees are bound to `let __tK = ..;`
+        if !self.spec.bindspine.is_empty() {
+            let mut out: Vec<Stmt> = vec![];
+            for mut s in old {
+                let mut pre: Vec<Stmt> = vec![];
+                match &mut s {
+                    Stmt::Local(l) => { if let Some(init) = &mut l.init { self.split_spine(&mut init.expr, &mut pre); } }
+                    // statement-level `if let P = E { .. }`: E is evaluated first
+                    Stmt::Expr(Expr::If(i), _) => { if let Expr::Let(l) = &mut *i.cond { self.split_spine(&mut l.expr, &mut pre); } }
+                    // expression statement `x.m(..);` / `f(..);`
+                    Stmt::Expr(e @ (Expr::MethodCall(_) | Expr::Call(_)), Some(_)) => self.split_spine(e, &mut pre),
+                    _ => {}
+                }
+                out.extend(pre);
+                out.push(s);
+            }
+            old = out;
+        }
+        // R-LETSPLIT (@letsplit m1 m2): in a `let` initialiser, the receiver chain of `.m(..)` is bound by `let mut __vx_tK = RECV;`
+        if !self.spec.letsplit.is_empty() {
+            let mut out: Vec<Stmt> = vec![];
+            for mut st in old {
+                if let Stmt::Local(l) = &mut st {
+                    if let Some(init) = &mut l.init {
+                        let mut pre: Vec<Stmt> = vec![];
+                        self.letsplit_expr(&mut init.expr, &mut pre);
+                        out.extend(pre);
+                    }
+                } else if let Stmt::Expr(e @ Expr::MethodCall(_), _) = &mut st {
+                    let mut pre: Vec<Stmt> = vec![];
+                    self.letsplit_expr(e, &mut pre);
+                    out.extend(pre);
+                } else if let Stmt::Expr(Expr::Assign(a), _) = &mut st {
+                    if matches!(&*a.left, Expr::Path(_) | Expr::Field(_)) {
+                        let mut pre: Vec<Stmt> = vec![];
+                        self.letsplit_expr(&mut a.right, &mut pre);
+                        out.extend(pre);
+                    }
+                }
+                out.push(st);
+            }
+            old = out;
+        }
+        for mut s in old {
             // pre-anchors
             let mut before: Vec<Stmt> = vec![];
             let mut after: Vec<Stmt> = vec![];
             // statement-level macros
             if let Stmt::Macro(sm) = &s {
-                if let Some(e) = self.rewrite_macro(&sm.mac.clone()) {
+                let saved0 = std::mem::take(&mut self.hoisted);
+                let rewritten = self.rewrite_macro(&sm.mac.clone());
+                let mine0 = std::mem::replace(&mut self.hoisted, saved0);
+                b.stmts.extend(mine0);
+                if let Some(e) = rewritten {
                     s = Stmt::Expr(e, Some(Default::default()));
+                }
+            }
+            // R-FORLOOP (@forloop K): Rust's own desugaring of `for`, with the VxIter model as the iterator:
+            // `'l: for P in E { B }` -> `let mut __vx_forK = E.into_iter(); 'l: loop { let Some(P) = __vx_forK.next() else { break; }; B }`
+            if let Stmt::Expr(Expr::ForLoop(f), semi) = &s {
+                let n = self.loop_no + 1;
+                if self.spec.forloop.contains(&n) {
+                    let itv = Ident::new(&format!("__vx_for{}", n), Span::call_site());
+                    let (pat, ex, body, label) = (&f.pat, &f.expr, &f.body.stmts, &f.label);
+                    let mut first: Stmt = match &**ex {
+                        Expr::Path(_) | Expr::MethodCall(_) | Expr::Call(_) | Expr::Field(_) => parse_quote!(let mut #itv = #ex.into_iter();),
+                        _ => parse_quote!(let mut #itv = (#ex).into_iter();),
+                    };
+                    let saved0 = std::mem::take(&mut self.hoisted);
+                    self.visit_stmt_mut(&mut first);
+                    let mine0 = std::mem::replace(&mut self.hoisted, saved0);
+                    b.stmts.extend(mine0);
+                    b.stmts.push(first);
+                    let head_id = Ident::new(&format!("__vx_anchor_loop{}_head", n), Span::call_site());
+                    let bound_id = Ident::new(&format!("__vx_anchor_loop{}_bound", n), Span::call_site());
+                    let lp: Expr = parse_quote!(#label loop { #head_id!(); let Some(#pat) = #itv.next() else { break; }; #bound_id!(); #(#body)* });
+                    s = Stmt::Expr(lp, *semi);
+                    self.bump("R-FORLOOP");
                 }
             }
             if let Stmt::Local(l) = &s {
@@ -431,7 +656,6 @@ impl<'a> VisitMut for Norm<'a> {
                 _ => false,
             };
             let next_loop = self.loop_no + 1;
-            let loop_stmt = loop_stmt && self.foridx_inner != Some(next_loop);
             if let Stmt::Local(l) = &mut s {
                 l.attrs.clear();
                 fn first_ident(p: &Pat) -> Option<String> {
@@ -454,7 +678,7 @@ impl<'a> VisitMut for Norm<'a> {
                     after.extend(self.anchor(&format!("after-let {}#{}", name, k)));
                     if k == 1 { after.extend(self.anchor(&format!("after-let {}", name))); }
                     // R-LETTYPE
-                    if let (Some(ty), Pat::Ident(_)) = (self.spec.lettype.get(&name), &l.pat) {
+                    if let (Some(ty), Pat::Ident(_)) = (self.spec.lettype.get(&name).cloned().as_ref(), &l.pat) {
                         if let Ok(t) = parse_str::<Type>(ty) {
                             let p = l.pat.clone();
                             l.pat = Pat::Type(PatType { attrs: vec![], pat: Box::new(p), colon_token: Default::default(), ty: Box::new(t) });
@@ -463,9 +687,40 @@ impl<'a> VisitMut for Norm<'a> {
                     }
                 }
             }
+            // R-REFPAT on `let` patterns (incl. let-else): `Some(&x)` -> `Some(__vx_rN)` + `let x = *__vx_rN;`
+            let mut derefs: Vec<Stmt> = vec![];
+            if let Stmt::Local(l) = &mut s {
+                self.strip_ref_pats(&mut l.pat, &mut derefs);
+            }
             let saved = std::mem::take(&mut self.hoisted);
             self.visit_stmt_mut(&mut s);
             let mine = std::mem::replace(&mut self.hoisted, saved);
+            // R-ARGBIND: name one argument of a statement-level call (`f(..);`, tail `f(..)`, `let p = f(..);`) so that
+            // ghost text can refer to it. Only when every earlier argument is a path/literal (evaluation order is kept).
+            let mut argbind: Vec<Stmt> = vec![];
+            if !self.spec.bindarg.is_empty() {
+                let call: Option<&mut ExprCall> = match &mut s {
+                    Stmt::Expr(Expr::Call(c), _) => Some(c),
+                    Stmt::Local(l) => l.init.as_mut().and_then(|i| if i.diverge.is_none() { if let Expr::Call(c) = &mut *i.expr { Some(c) } else { None } } else { None }),
+                    _ => None,
+                };
+                if let Some(c) = call {
+                    let nm = squash(&ts(&c.func));
+                    let k = { let k = self.bind_no.entry(nm.clone()).or_default(); *k += 1; *k };
+                    let specs: Vec<(usize, (String, usize, usize, String))> = self.spec.bindarg.iter().cloned().enumerate().collect();
+                    for (bi, (callee, kk, idx, name)) in specs {
+                        if callee == nm && kk == k && idx < c.args.len() && c.args.iter().take(idx).all(|a| matches!(a, Expr::Path(_) | Expr::Lit(_))) {
+                            let id = Ident::new(&name, Span::call_site());
+                            let a = c.args[idx].clone();
+                            argbind.push(parse_quote!(let #id = #a;));
+                            c.args[idx] = parse_quote!(#id);
+                            argbind.extend(self.anchor(&format!("after-let {}", name)));
+                            self.bind_done.insert(bi);
+                            self.bump("R-ARGBIND");
+                        }
+                    }
+                }
+            }
             // call anchors (after renaming)
             let callee = match &s {
                 Stmt::Expr(Expr::MethodCall(mc), _) => Some(mc.method.to_string()),
@@ -487,27 +742,55 @@ impl<'a> VisitMut for Norm<'a> {
             }
             b.stmts.extend(mine);
             b.stmts.extend(before);
+            b.stmts.extend(argbind);
             b.stmts.push(s);
+            b.stmts.extend(derefs);
             b.stmts.extend(after);
         }
     }
 
     fn visit_expr_mut(&mut self, e: &mut Expr) {
         // ---- pre-order rewrites that change the node kind
-        // R-FORIDX: `for P in S { B }` (S a shared slice / &Vec) -> `{ let s = S; let mut i = 0; while i < s.len() { let P = &s[i]; i += 1; B } }`
-        let mut foridx: Option<Expr> = None;
-        if let Expr::ForLoop(f) = e {
-            if self.spec.foridx.contains(&(self.loop_no + 1)) {
-                let n = self.loop_no + 1;
-                let sv = Ident::new(&format!("__vx_s{}", n), Span::call_site());
-                let iv = Ident::new(&format!("__vx_i{}", n), Span::call_site());
-                let (pat, ex, body, label) = (&f.pat, &f.expr, &f.body.stmts, &f.label);
-                foridx = Some(parse_quote!({ let #sv = #ex; let mut #iv: usize = 0; #label while #iv < #sv.len() { let #pat = &#sv[#iv]; #iv += 1; #(#body)* } }));
+        match e {
+            Expr::Block(eb) if eb.label.is_none() && eb.block.stmts.len() == 2 => {
+                // R-MAP(peek_mut): `{ let mut X = R.peek_mut()?; mem::replace(&mut *X, V) }` -> `R.vx_replace_top(V)?`
+                let mut repl: Option<Expr> = None;
+                if let (Stmt::Local(l), Stmt::Expr(Expr::Call(c), None)) = (&eb.block.stmts[0], &eb.block.stmts[1]) {
+                    if let (Pat::Ident(pi), Some(init)) = (&l.pat, &l.init) {
+                        if let (Expr::Try(t), None) = (&*init.expr, &init.diverge) {
+                            if let Expr::MethodCall(mc) = &*t.expr {
+                                if mc.method == "peek_mut" && mc.args.is_empty() && squash(&ts(&c.func)).ends_with("mem::replace") && c.args.len() == 2 {
+                                    let want = format!("&mut*{}", pi.ident);
+                                    if squash(&ts(&c.args[0])) == want {
+                                        let (r, v) = (&mc.receiver, &c.args[1]);
+                                        repl = Some(parse_quote!(#r.vx_replace_top(#v)?));
+                                    }
+                                }
+                            }
+                        }
+                    }
+                }
+                if let Some(r) = repl { *e = r; self.bump("R-MAP(peek_mut)"); }
             }
+            _ => {}
         }
-        if let Some(ne) = foridx { *e = ne; self.foridx_inner = Some(self.loop_no + 1); self.bump("R-FORIDX"); }
         match e {
             Expr::While(w) => {
+                if let Expr::Let(l) = &mut *w.cond {
+                    // R-MAP(peek_mut): `while let PAT(X) = R.peek_mut().. { .. PeekMut::pop(X) .. }` -> `R.peek()..` / `R.vx_peekmut_pop()`
+                    let binder = Self::single_binder(&l.pat);
+                    let mut probe = (*l.expr).clone();
+                    if let (Some(binder), Some(recv)) = (binder, Self::peek_mut_root(&mut probe)) {
+                        let mut v = PeekMutPop { binder, recv, replaced: 0, other_uses: 0 };
+                        v.visit_block_mut(&mut w.body);
+                        if v.other_uses > 0 {
+                            self.errors.push(format!("`peek_mut()` binder used other than by `PeekMut::pop` in {}", self.fname));
+                        } else {
+                            *l.expr = probe;
+                            self.bump("R-MAP(peek_mut)");
+                        }
+                    }
+                }
                 if let Expr::Let(l) = &*w.cond {
                     if self.spec.whilelet.contains(&(self.loop_no + 1)) {
                         let (pat, ex) = (&l.pat, &l.expr);
@@ -528,6 +811,10 @@ impl<'a> VisitMut for Norm<'a> {
                     return;
                 }
             }
+            Expr::Closure(c) if c.asyncness.is_some() => {
+                c.asyncness = None;
+                self.bump("R-ASYNC");
+            }
             Expr::Await(a) => {
                 let base = (*a.base).clone();
                 *e = base;
@@ -537,6 +824,17 @@ impl<'a> VisitMut for Norm<'a> {
             }
             Expr::If(i) => {
                 self.rewrite_if(i);
+            }
+            Expr::MethodCall(mc) if mc.method == "or_else" && mc.args.len() == 1
+                && matches!(mc.args.first(), Some(Expr::Closure(c)) if c.inputs.is_empty() && c.asyncness.is_none()) =>
+            {
+                // R-ORELSE: `X.or_else(|| F)` -> `match X { Some(v) => Some(v), None => F }` (the definition of
+                // Option::or_else; a zero-parameter closure only fits Option's). Verus has no closures capturing `&mut`.
+                let recv = (*mc.receiver).clone();
+                let Some(Expr::Closure(c)) = mc.args.first() else { unreachable!() };
+                let body = (*c.body).clone();
+                *e = parse_quote!(match #recv { Some(__vx_some) => Some(__vx_some), None => #body, });
+                self.bump("R-ORELSE");
             }
             Expr::MethodCall(mc) => {
                 // R-MAP: map.retain(|_, v| BODY) -> map.vx_retain_values(|v| BODY)
@@ -594,9 +892,21 @@ impl<'a> VisitMut for Norm<'a> {
                 self.loop_no += 1;
                 let n = self.loop_no;
                 self.visit_expr_mut(&mut f.expr);
+                // R-ITER(for-ref), opt-in (`@opt forref`): `for P in &E` is `for P in E.iter()` for every std collection
+                let mut forref = false;
+                if self.spec.opts.contains("forref") {
+                    if let Expr::Reference(r) = &*f.expr {
+                        if r.mutability.is_none() {
+                            let inner = &r.expr;
+                            *f.expr = parse_quote!(#inner.vx_iter());
+                            self.bump("R-ITER(for-ref)");
+                            forref = true;
+                        }
+                    }
+                }
                 // iterator chain in head position
-                let mut chain = self.is_iter_chain(&f.expr);
-                if let Expr::MethodCall(mc) = &mut *f.expr {
+                let mut chain = Self::is_iter_chain(&f.expr, &self.unit.iter_fns);
+                if let (false, Expr::MethodCall(mc)) = (forref, &mut *f.expr) {
                     if mc.args.is_empty() && mc.method == "vx_iter" {
                         mc.method = Ident::new("iter", mc.method.span());
                         chain = false;
@@ -606,10 +916,19 @@ impl<'a> VisitMut for Norm<'a> {
                         chain = false;
                     }
                 }
+                // a bare identifier that names a `VxIter`-typed parameter is an iterator chain of length 0
+                if let Expr::Path(p) = &*f.expr {
+                    if p.path.get_ident().map(|i| self.iter_idents.contains(&i.to_string())).unwrap_or(false) { chain = true; }
+                }
                 if chain {
                     let ex = &f.expr;
                     *f.expr = parse_quote!(#ex.into_vec());
                     self.bump("R-ITER(for)");
+                } else if self.spec.foriter.contains(&n) {
+                    // R-FORITER: `for P in E` over a modelled collection (by reference) -> `for P in E.vx_iter().into_vec()`
+                    let ex = &f.expr;
+                    *f.expr = parse_quote!(#ex.vx_iter().into_vec());
+                    self.bump("R-FORITER");
                 }
                 if let Some(lbl) = self.spec.loop_labels.get(&n) {
                     let w = Ident::new(&format!("__vx_it_{}", lbl), Span::call_site());
@@ -736,7 +1055,15 @@ impl<'a> VisitMut for Norm<'a> {
                         new_inputs.push(Pat::Type(PatType { attrs: vec![], pat: pname.clone(), colon_token: Default::default(), ty: pty.clone() }));
                         let old_inner = match old { Pat::Type(t) => &*t.pat, o => o };
                         match old_inner {
-                            Pat::Reference(r) => { let inner = &r.pat; lets.push(parse_quote!(let #inner = *#pname;)); self.bump("R-REFPAT"); }
+                            Pat::Reference(_) => {
+                                let mut depth = 0usize;
+                                let mut cur: Pat = old_inner.clone();
+                                while let Pat::Reference(r) = cur { depth += 1; cur = (*r.pat).clone(); }
+                                let mut ex: Expr = parse_quote!(#pname);
+                                for _ in 0..depth { ex = parse_quote!(*#ex); }
+                                lets.push(parse_quote!(let #cur = #ex;));
+                                self.bump("R-REFPAT");
+                            }
                             Pat::Ident(pi) if pi.ident == ts(pname) => {}
                             other => { lets.push(parse_quote!(let #other = #pname;)); }
                         }
@@ -840,6 +1167,24 @@ impl<'a> VisitMut for Norm<'a> {
                             }
                             if !done { self.errors.push(format!("`.or_insert(..)` chain outside R-MAP in {}", self.fname)); }
                         }
+                        // R-MAP(filter-eta): `o.filter(|&v| f(v))` with `f` a local FnMut -> `vx_opt_filter_with(o, &mut f)`
+                        // (Verus has no closures capturing `&mut`; the shim's body is this very closure)
+                        "filter" if mc.args.len() == 1 => {
+                            if let Some(Expr::Closure(cl)) = mc.args.first() {
+                                if cl.inputs.len() == 1 {
+                                    if let (Pat::Reference(pr), Expr::Call(call)) = (&cl.inputs[0], &*cl.body) {
+                                        if let (Pat::Ident(pi), Expr::Path(fp)) = (&*pr.pat, &*call.func) {
+                                            let arg_is_param = call.args.len() == 1 && ts(&call.args[0]) == pi.ident.to_string();
+                                            if let (true, Some(f)) = (arg_is_param, fp.path.get_ident()) {
+                                                let recv = &mc.receiver;
+                                                replace = Some(parse_quote!(vx_opt_filter_with(#recv, &mut #f)));
+                                                self.bump("R-MAP(filter-eta)");
+                                            }
+                                        }
+                                    }
+                                }
+                            }
+                        }
                         "extend" if mc.args.len() == 1 => {
                             mc.method = Ident::new("vx_extend", mc.method.span());
                             self.bump("R-STD");
@@ -882,6 +1227,34 @@ impl<'a> VisitMut for Norm<'a> {
                     }
                 }
             }
+            Expr::Lit(ExprLit { lit: Lit::Str(l), .. }) => {
+                // R-STR: a string literal in expression position becomes `<strlit>("lit")` (unit opted in with @strlit)
+                if let Some(f) = &self.unit.strlit {
+                    if let Ok(fp) = parse_str::<Path>(f) {
+                        let l = l.clone();
+                        replace = Some(parse_quote!(#fp(#l)));
+                        self.bump("R-STR");
+                    }
+                }
+            }
+            Expr::Reference(r) if r.mutability.is_none() => {
+                // R-STRSLICE: `&x[a..b]` / `&x[a..]` / `&x[..b]` with `x` a `&str` parameter (or a shadowing rebinding of it)
+                if let Expr::Index(ix) = &*r.expr {
+                    let is_str = if let Expr::Path(p) = &*ix.expr { p.path.get_ident().map(|i| self.str_idents.contains(&i.to_string())).unwrap_or(false) } else { false };
+                    if let (true, Expr::Range(rg)) = (is_str, &*ix.index) {
+                        if matches!(rg.limits, RangeLimits::HalfOpen(_)) {
+                            let x = &ix.expr;
+                            match (rg.start.as_ref(), rg.end.as_ref()) {
+                                (Some(a), Some(b)) => { replace = Some(parse_quote!(#x.vx_slice(#a, #b))); }
+                                (Some(a), None) => { replace = Some(parse_quote!(#x.vx_slice_from(#a))); }
+                                (None, Some(b)) => { replace = Some(parse_quote!(#x.vx_slice_to(#b))); }
+                                (None, None) => {}
+                            }
+                            if replace.is_some() { self.bump("R-STRSLICE"); }
+                        }
+                    }
+                }
+            }
             Expr::Binary(b) => {
                 // R-ENUMEQ
                 if matches!(b.op, BinOp::Eq(_) | BinOp::Ne(_)) {
@@ -909,86 +1282,53 @@ impl<'a> VisitMut for Norm<'a> {
 }
 
 impl<'a> Norm<'a> {
-    /// R-LETSPLIT. Only the receiver spine of the statement's root expression is considered, so the bound
-    /// sub-expression is the first thing the statement evaluates anyway (evaluation order unchanged).
-    fn letsplit_stmt(&mut self, s: &mut Stmt) -> Option<Stmt> {
-        if let Some(st) = self.letsplit_arg(s) { return Some(st); }
-        let root: &mut Expr = match s {
-            Stmt::Expr(e, _) => e,
-            Stmt::Local(l) => match &mut l.init { Some(init) if init.diverge.is_none() => &mut *init.expr, _ => return None },
-            _ => return None,
-        };
-        let names = self.spec.letsplit.clone();
-        // pass 1: depth of the first matching call below the root on the receiver spine
-        let mut depth = 0usize;
-        {
-            let mut cur: &Expr = root;
-            loop {
-                match cur {
-                    Expr::MethodCall(mc) => {
-                        if depth > 0 && names.iter().any(|n| mc.method == n.as_str()) { break; }
-                        cur = &mc.receiver;
-                    }
-                    Expr::Try(t) => cur = &t.expr,
-                    Expr::Paren(p) => cur = &p.expr,
-                    _ => return None,
-                }
-                depth += 1;
+    /// R-BINDSPINE: walk the "first evaluated" spine of an expression (method receiver, first argument of a path call,
+    /// operand of `?`/`.await`) and bind the calls named by @bindspine to fresh `__tK` temporaries, innermost first.
+    fn split_spine(&mut self, e: &mut Expr, out: &mut Vec<Stmt>) {
+        match e {
+            Expr::MethodCall(mc) => {
+                if matches!(&*mc.receiver, Expr::Path(_)) { if let Some(first) = mc.args.first_mut() { self.split_slot(first, out); } } else { self.split_slot(&mut mc.receiver, out) }
             }
+            Expr::Call(c) => {
+                if matches!(&*c.func, Expr::Path(_)) {
+                    if let Some(first) = c.args.first_mut() { self.split_slot(first, out); }
+                }
+            }
+            Expr::Try(t) => self.split_spine(&mut t.expr, out),
+            Expr::Await(a) => self.split_spine(&mut a.base, out),
+            Expr::Paren(p) => self.split_spine(&mut p.expr, out),
+            _ => {}
         }
-        // pass 2: walk down again mutably
-        let mut cur: &mut Expr = root;
-        for _ in 0..depth {
-            cur = match cur {
-                Expr::MethodCall(mc) => &mut *mc.receiver,
-                Expr::Try(t) => &mut *t.expr,
-                Expr::Paren(p) => &mut *p.expr,
-                _ => return None,
-            };
-        }
-        let id = Ident::new(&format!("__t{}", self.tmp_no), Span::call_site());
-        self.tmp_no += 1;
-        let inner = std::mem::replace(cur, parse_quote!(#id));
-        self.bump("R-LETSPLIT");
-        Some(parse_quote!(let mut #id = #inner;))
     }
-
-    /// R-LETSPLIT on the first-evaluated argument: in a statement `x.m(f(g(E)))` / `f(g(E))` whose receiver / callees are plain
-    /// paths, the innermost-first-evaluated call to a function named in `@letsplit` (e.g. `Box::new`) is bound by a fresh `let`
-    /// in front of the statement. Nothing with an effect is evaluated before it, so the order of effects is unchanged.
-    fn letsplit_arg(&mut self, s: &mut Stmt) -> Option<Stmt> {
-        let names: Vec<String> = self.spec.letsplit.iter().filter(|n| n.contains("::")).cloned().collect();
-        if names.is_empty() { return None; }
-        let root: &mut Expr = match s { Stmt::Expr(e, _) => e, _ => return None };
-        fn is_plain(e: &Expr) -> bool { matches!(e, Expr::Path(_) | Expr::Lit(_)) }
-        // path of first-argument descents: true = found
-        fn find(e: &Expr, names: &[String], depth: usize, is_root: bool) -> Option<usize> {
-            match e {
-                Expr::Call(c) => {
-                    if !is_plain(&c.func) { return None; }
-                    if !is_root && names.iter().any(|n| squash(&ts(&c.func)) == squash(n)) { return Some(depth); }
-                    find(c.args.first()?, names, depth + 1, false)
-                }
-                Expr::MethodCall(mc) => { if !is_plain(&mc.receiver) { return None; } find(mc.args.first()?, names, depth + 1, false) }
-                Expr::Paren(p) => find(&p.expr, names, depth + 1, false),
-                _ => None,
+    fn split_slot(&mut self, slot: &mut Expr, out: &mut Vec<Stmt>) {
+        // `&[a, b, c]` (pseudo-callee `[]`): the array temporary gets a name, the slot borrows it
+        if let Expr::Reference(r) = slot {
+            if r.mutability.is_none() && matches!(&*r.expr, Expr::Array(_)) && self.spec.bindspine.iter().any(|x| x == "[]") {
+                self.spine_no += 1;
+                let id = Ident::new(&format!("__t{}", self.spine_no), Span::call_site());
+                let val = (*r.expr).clone();
+                out.push(parse_quote!(let #id = #val;));
+                r.expr = Box::new(parse_quote!(#id));
+                self.bump("R-BINDSPINE");
+                return;
             }
         }
-        let depth = find(root, &names, 0, true)?;
-        let mut cur: &mut Expr = root;
-        for _ in 0..depth {
-            cur = match cur {
-                Expr::Call(c) => c.args.first_mut()?,
-                Expr::MethodCall(mc) => mc.args.first_mut()?,
-                Expr::Paren(p) => &mut *p.expr,
-                _ => return None,
-            };
+        self.split_spine(slot, out);
+        let callee = match &*slot {
+            Expr::MethodCall(r) => Some(r.method.to_string()),
+            Expr::Call(c) => if let Expr::Path(p) = &*c.func { p.path.segments.last().map(|s| s.ident.to_string()) } else { None },
+            _ => None,
+        };
+        if let Some(nm) = callee {
+            if self.spec.bindspine.iter().any(|x| x == &nm) {
+                self.spine_no += 1;
+                let id = Ident::new(&format!("__t{}", self.spine_no), Span::call_site());
+                let val = slot.clone();
+                out.push(parse_quote!(let #id = #val;));
+                *slot = parse_quote!(#id);
+                self.bump("R-BINDSPINE");
+            }
         }
-        let id = Ident::new(&format!("__t{}", self.tmp_no), Span::call_site());
-        self.tmp_no += 1;
-        let inner = std::mem::replace(cur, parse_quote!(#id));
-        self.bump("R-LETSPLIT");
-        Some(parse_quote!(let mut #id = #inner;))
     }
 
     fn finish_loop(&mut self, n: usize, body: &mut Block) {
@@ -999,7 +1339,6 @@ impl<'a> Norm<'a> {
         let mut pos = 0;
         if let Some(Stmt::Local(l)) = body.stmts.first() {
             if let Some(init) = &l.init { if ts(&init.expr).starts_with("__vx_x") { pos = 1; } }
-            if let Some(init) = &l.init { if squash(&ts(&init.expr)).starts_with(&format!("&__vx_s{}[", n)) { pos = 2; } }
         }
         for (k, s) in s0.into_iter().enumerate() { body.stmts.insert(pos + k, s); }
         body.stmts.extend(s1);
@@ -1036,6 +1375,9 @@ impl<'a> Norm<'a> {
                 block.stmts.extend(ret);
                 block.stmts.extend(can);
             }
+        }
+        for (bi, (callee, k, idx, name)) in self.spec.bindarg.iter().enumerate() {
+            if !self.bind_done.contains(&bi) { self.errors.push(format!("@bindarg {}#{} {} {}: no such statement-level call in {}", callee, k, idx, name, self.fname)); }
         }
         let _ = quote!();
     }
